@@ -4,33 +4,16 @@ package db
 
 // db-specific part of the merge-walk environment (the generic part is /verif/harness/_common/dagenv.go.tmpl)
 
-import (
-	"container/list"
-
-	"github.com/ipfs/go-cid"
-	cidlink "github.com/ipld/go-ipld-prime/linking/cid"
-
-	coreblock "github.com/sourcenetwork/defradb/internal/core/block"
-)
-
 func (e *vEnv) collection() *collection { return &collection{def: e.def} }
 
+// the merge processor is built by the real constructor (only its link systems read from the stores; inside the
+// solver run LinkSystem.Load is redirected to the block table)
 func (e *vEnv) newMergeProcessor() *mergeProcessor {
-	if !vSymbolic() {
-		mp, err := (&DB{}).newMergeProcessor(e.ctx, e.collection())
-		if err != nil {
-			panic("newMergeProcessor")
-		}
-		return mp
+	mp, err := (&DB{}).newMergeProcessor(e.ctx, e.collection())
+	if err != nil {
+		panic("newMergeProcessor")
 	}
-	return &mergeProcessor{
-		col:                       e.collection(),
-		docIDs:                    make(map[string]struct{}),
-		composites:                list.New(),
-		queued:                    make(map[cid.Cid]struct{}),
-		missingEncryptionBlocks:   make(map[cidlink.Link]struct{}),
-		availableEncryptionBlocks: make(map[cidlink.Link]*coreblock.Encryption),
-	}
+	return mp
 }
 
 // deliver commit x the way executeMerge does (without transaction handling and index sync)
